@@ -1,11 +1,16 @@
 import ObiVerif.Model.Pcr
+import ObiVerif.Model.PcrAnnot
 import ObiVerif.Driver.Util
 /-! line protocol for C11
 
 ```
 pcr  <fwd> <rev> <ef> <er> <min> <max> <ext> <full> <circ> <tpl>[,<tpl>...]
        -> fatal | panic | unmodelled | per template ("|") the amplicons in order ("," ; "-" = none), each
-          d/from+1..to/amplicon/forward_match/forward_error/reverse_match/reverse_error
+          d/from+1..to/amplicon/forward_match/forward_error/reverse_match/reverse_error/forward_primer/reverse_primer/others
+          — every field but the coordinates and the nucleotides is READ FROM THE ANNOTATION MAP of the amplicon (`annotate`);
+          `others` = the remaining keys, sorted, `hexname=i<int>` / `hexname=s<hex>` joined by ";" ("-" = none).
+          Convention: template number k of a `pcr` line carries the annotations `tplAnnot k`, the template of a `cli` line
+          `tplAnnot 1`, the one of a `frag` line `tplAnnot 0`
 frag <fwd> <rev> <e> <min> <max> <ext> <full> <minsize> <length> <overlap> <tpl>
        -> <fragment coordinates a..b,… | whole> <amplicons per fragment as above>
 cli  <fwd> <rev> <e> <min> <max> <delta> <full> [<circ> <frag>] <tpl>      (default: circ = 0, frag = 1)
@@ -18,10 +23,56 @@ open ObiVerif ObiVerif.Apat ObiVerif.Pcr ObiVerif.Driver
 
 def bool? (s : String) : Option Bool := if s = "1" then some true else if s = "0" then some false else none
 
-def showAmp (a : Amplicon) : String :=
-  s!"{if a.isForward then "f" else "r"}/{a.idFrom}..{a.idTo}/{hex a.seq}/{hex a.fmatch}/{a.ferr}/{hex a.rmatch}/{a.rerr}"
+/-- insertion sort of strings (canonical order of the `cli` result) -/
+def insStr (x : String) : List String → List String
+  | [] => [x]
+  | y :: ys => if x ≤ y then x :: y :: ys else y :: insStr x ys
+def sortStr (l : List String) : List String := l.foldr insStr []
 
-def showList (l : List Amplicon) : String := if l.isEmpty then "-" else ",".intercalate (l.map showAmp)
+def bytesOf (s : String) : Bytes := s.toUTF8.toList
+
+/-- the annotations the harness gives template number `k`: none (k mod 3 = 2), a tag (k mod 3 = 0), or a tag, a note and
+three annotations named like keys `_Pcr` writes (k mod 3 = 1) -/
+def tplAnnot (k : Nat) : Annot :=
+  if k % 3 == 2 then []
+  else if k % 3 == 0 then [(.other (bytesOf "c11tag"), .int k)]
+  else [(.other (bytesOf "c11tag"), .int k), (.pcr .direction, .str (bytesOf "template")), (.pcr .forwardError, .int (-7)),
+        (.pcr .reversePrimer, .str (bytesOf "NNN")), (.other (bytesOf "zz_note"), .str (bytesOf s!"t{k}"))]
+
+def showStrVal : Option AVal → String
+  | some (.str s) => hex s
+  | _ => "?"
+
+def showIntVal : Option AVal → String
+  | some (.int n) => s!"{n}"
+  | _ => "?"
+
+def showDir : Option AVal → String
+  | some (.str s) => if s == dirBytes true then "f" else if s == dirBytes false then "r" else "?"
+  | _ => "?"
+
+/-- the `others` field: every key that is not one of the seven, sorted -/
+def showOthers (a : Annot) : String :=
+  let l := a.filterMap fun kv => match kv with
+    | (.other n, .int v) => some s!"{hex n}=i{v}"
+    | (.other n, .str v) => some s!"{hex n}=s{hex v}"
+    | _ => none
+  if l.isEmpty then "-" else ";".intercalate (sortStr l)
+
+/-- fields 4.. of an amplicon, read from its annotation map -/
+def showAnnot (m : Annot) : String :=
+  s!"{showStrVal (m.get (.pcr .forwardMatch))}/{showIntVal (m.get (.pcr .forwardError))}/{showStrVal (m.get (.pcr .reverseMatch))}/{showIntVal (m.get (.pcr .reverseError))}/{showStrVal (m.get (.pcr .forwardPrimer))}/{showStrVal (m.get (.pcr .reversePrimer))}/{showOthers m}"
+
+def showAmp (fw rv : Bytes) (tpl : Annot) (a : Amplicon) : String :=
+  let m := annotate fw rv tpl a
+  s!"{showDir (m.get (.pcr .direction))}/{a.idFrom}..{a.idTo}/{hex a.seq}/{showAnnot m}"
+
+def showList (fw rv : Bytes) (tpl : Annot) (l : List Amplicon) : String :=
+  if l.isEmpty then "-" else ",".intercalate (l.map (showAmp fw rv tpl))
+
+/-- per template, numbered from `k0` -/
+def showPer (fw rv : Bytes) (per : List (List Amplicon)) : String :=
+  "|".intercalate ((List.range per.length).zip per |>.map fun (kl : Nat × List Amplicon) => showList fw rv (tplAnnot kl.1) kl.2)
 
 def showBad : Bad → String
   | .fatal => "fatal"
@@ -29,38 +80,29 @@ def showBad : Bad → String
 
 def splitTpls (s : String) : Option (List Bytes) := (s.splitOn ",").mapM unhex
 
-/-- insertion sort of strings (canonical order of the `cli` result) -/
-def insStr (x : String) : List String → List String
-  | [] => [x]
-  | y :: ys => if x ≤ y then x :: y :: ys else y :: insStr x ys
-def sortStr (l : List String) : List String := l.foldr insStr []
-
-/-- `obipcr.CLIPCR` on one template: the options of `cliOpts`; with `--fragmented` the template goes through `IFragments` with
-the parameters of `cliFragParams` and every piece through `_PCRSlice` with the same options (`--circular` included) -/
+/-- `obipcr.CLIPCR` on one template (`cliRun`): the options of `cliOpts`; with `--fragmented` and without `--circular` the
+template goes through `IFragments` with the parameters of `cliFragParams` and every piece through `_PCRSlice` -/
 def runCli (fw rv e mn mx delta full circ frag tpl : String) : String :=
   match unhex fw, unhex rv, e.toNat?, mn.toInt?, mx.toInt?, delta.toInt?, bool? full, bool? circ, bool? frag, unhex tpl with
   | some fw, some rv, some e, some mn, some mx, some delta, some full, some circ, some frag, some tpl =>
     if e > 63 || fw.length ≥ Gen.apatMaxPatLen || rv.length ≥ Gen.apatMaxPatLen || mx < 1 then "bad-op"
     else
-      let o : Opts := cliOpts mn mx delta full circ
       let t := tpl.map lowerByte
-      let (minsize, length, overlap) := cliFragParams mx fw.length rv.length delta
-      match mkPrimers fw rv e e, (if frag then fragments minsize length overlap t.length else some none) with
-      | some P, some frs =>
-        let cuts : List (String × Nat × Nat) := match frs with
-          | none => [("whole", 0, t.length)]
-          | some l => l.map fun (ab : Nat × Nat) => (s!"{ab.1 + 1}..{ab.2}", ab.1, ab.2)
-        if circ && cuts.any (fun c => c.2.2 - c.2.1 < Gen.apatMaxPatLen && max fw.length rv.length > c.2.2 - c.2.1) then "unmodelled"
-        else
-        match pcrSlice P o (cuts.map fun c => (t.drop c.2.1).take (c.2.2 - c.2.1)) with
-        | .error b => showBad b
-        | .ok per =>
-          let all := (cuts.zip per).flatMap fun (cl : (String × Nat × Nat) × List Amplicon) =>
-            cl.2.map fun x => s!"{if x.isForward then "f" else "r"}/{cl.1.1}/{x.idFrom + (cl.1.2.1 : Int)}/{hex x.seq}/{hex x.fmatch}/{x.ferr}/{hex x.rmatch}/{x.rerr}"
+      match mkPrimers fw rv e e with
+      | none => "fatal"
+      | some P =>
+        match cliRun P fw.length rv.length mn mx delta full circ frag t with
+        | none => "bad-op"
+        | some (.error b) => showBad b
+        | some (.ok per) =>
+          let whole := (cliPieces mx fw.length rv.length delta circ frag t.length) == some none
+          let all := per.flatMap fun (cl : (Nat × Nat) × List Amplicon) =>
+            let name := if whole then "whole" else s!"{cl.1.1 + 1}..{cl.1.2}"
+            cl.2.map fun x =>
+              let m := annotate fw rv (tplAnnot 1) x
+              s!"{showDir (m.get (.pcr .direction))}/{name}/{x.idFrom + (cl.1.1 : Int)}/{hex x.seq}/{showAnnot m}"
           let s := sortStr all
           if s.isEmpty then "-" else ",".intercalate s
-      | none, _ => "fatal"
-      | _, none => "bad-op"
   | _, _, _, _, _, _, _, _, _, _ => "bad-op"
 
 def run (line : String) : String :=
@@ -78,8 +120,7 @@ def run (line : String) : String :=
           match pcrSlice P o (tpls.map fun t => t.map lowerByte) with
           | .error b => showBad b
           | .ok per =>
-            if circ && tpls.any (fun t => t.length < Gen.apatMaxPatLen && max fw.length rv.length > t.length) then "unmodelled"
-            else "|".intercalate (per.map showList)
+            showPer fw rv per
     | _, _, _, _, _, _, _, _, _, _ => "bad-op"
   | ["frag", fw, rv, e, mn, mx, ext, full, minsize, length, overlap, tpl] =>
     match unhex fw, unhex rv, e.toNat?, mn.toInt?, mx.toInt?, ext.toInt?, bool? full, minsize.toInt?, length.toInt?, overlap.toInt?, unhex tpl with
@@ -98,7 +139,7 @@ def run (line : String) : String :=
             | some l => ",".intercalate (l.map fun (ab : Nat × Nat) => s!"{ab.1 + 1}..{ab.2}")
           match pcrSlice P o pieces with
           | .error b => showBad b
-          | .ok per => s!"{names} {"|".intercalate (per.map showList)}"
+          | .ok per => s!"{names} {"|".intercalate (per.map (showList fw rv (tplAnnot 0)))}"
         | _, _ => "bad-op"
     | _, _, _, _, _, _, _, _, _, _, _ => "bad-op"
   | ["cli", fw, rv, e, mn, mx, delta, full, tpl] => runCli fw rv e mn mx delta full "0" "1" tpl
